@@ -21,7 +21,7 @@ AttrAgrees(o, f) == \A at \in DOMAIN f.attr : \E j \in DOMAIN o.attr :
                        /\ o.attr[j].at = at
                        /\ \A k \in DOMAIN f.attr[at] : k \in DOMAIN o.attr[j].attrs /\ o.attr[j].attrs[k] = f.attr[at][k]
 \* first failing component, "" if the record agrees with the P-layer; "known-verkey" if it agrees except that the interactions are
-\* those of the open finding (write-back confuses version numbers with node keys of removed atoms)
+\* those of finding F17, repaired (write-back confuses version numbers with node keys of removed atoms); the driver reports it as a violation
 Why(c, o) == LET e == PEnd(c)
                  f == PFinalE(c, e)
                  nodup == Len(o.ints) = Cardinality(ObsInts(o)) IN
